@@ -78,7 +78,7 @@ def run_shard(spec, R):
             tr = {"scalar": (), "vector": (3,), "series": (4,)}[payload]
             arr = rng.standard_normal(tuple(shape) + tr).astype(dtype)
             dims = dims or [float(2.0 ** rng.integers(-3, 4)) * shape[d] for d in range(dim)]
-            kw = dict(space_dim=dim, dimensions=list(dims), scalar=payload == "scalar", series=payload == "series")
+            kw = dict(space_dim=dim, dimensions=list(dims), scalar=payload in ("scalar", "series"), series=payload == "series")
             if payload == "series":
                 kw["time"] = [0.0, 1.0, 2.0, 3.0]
             if origin is not None:
@@ -181,7 +181,7 @@ def run_shard(spec, R):
             shape = tuple(int(rng.integers(1, 12)) for _ in range(dim))
             cval = float(rng.uniform(-3, 3))
             tr = {"scalar": (), "vector": (3,), "series": (4,)}[payload]
-            kw = dict(space_dim=dim, dimensions=[float(s) for s in shape], scalar=payload == "scalar", series=payload == "series")
+            kw = dict(space_dim=dim, dimensions=[float(s) for s in shape], scalar=payload in ("scalar", "series"), series=payload == "series")
             if payload == "series":
                 kw["time"] = [0.0, 1.0, 2.0, 3.0]
             cimg = darsia.Image(np.full(tuple(shape) + tr, cval, dtype=np.float64), **kw)
